@@ -313,6 +313,23 @@ def cache(rc):
     if "original_function=self._wrapped_original" not in norm(init.node, 10000).replace(" ", "").replace("original_function=self._wrapped_original", "original_function=self._wrapped_original"):
         if "self._wrapped_original" not in norm(init.node, 10000):
             rc.fail(init, init.node, "the cache must wrap the base scorer's local score", construct="cache wiring")
+    # wrapper completeness: whatever a scorer subclass specialises, the cache must forward to the wrapped scorer (else the base-class default answers)
+    base = repo.cls(SS, "StructureScore")
+    cache_cls = repo.cls(SC, "ScoreCache")
+    specialised = {}
+    for sub in repo.subclasses(base):
+        if sub is cache_cls:
+            continue
+        for mname, m in sub.methods.items():
+            if mname in base.methods and not mname.startswith("__") and mname != "local_score":
+                specialised.setdefault(mname, []).append(sub.name)
+    for mname, subs in sorted(specialised.items()):
+        own = cache_cls.methods.get(mname)
+        fwd = own is not None and any(isinstance(c_, ast.Call) and norm(c_.func) == f"self.base_scorer.{mname}" for c_ in ast.walk(own.node))
+        rc.ob(f"ScoreCache forwards `{mname}` (specialised by {subs}) to the wrapped scorer: {fwd}")
+        if not fwd:
+            rc.fail(cache_cls.methods["local_score"], cache_cls.node, f"ScoreCache does not forward `{mname}` to the wrapped scorer although {subs} specialise it: a cached {subs[0]} answers "
+                    f"`{mname}` with the StructureScore default (network scores and search results differ from the uncached scorer)", construct=f"ScoreCache does not forward {mname}")
     call = repo.func(SC, "LRUCache.__call__")
     key = call.node.args.vararg.arg if call.node.args.vararg else None
     if key is None:
@@ -419,6 +436,8 @@ def defuse(rc):
     _sh.defuse_rule(rc, _sh.anchor_files("C10"))
 
 MUTANTS = [
+    dict(kind="break", name="cache-does-not-forward-prior", file=SC, expect="C10.cache",
+         old="    def structure_prior(self, model):\n        return self.base_scorer.structure_prior(model)\n\n", new=""),
     dict(kind="break", name="conditional-counts-by-value-counts", file="pgmpy/estimators/base.py", expect="C10.counts",
          old="                    self.data.groupby([variable] + parents, observed=True)\n                    .size()\n", new="                    self.data.loc[:, [variable] + parents]\n                    .value_counts(sort=False)\n"),
     dict(kind="break", name="k2-drop-conds-adj", file=SS, expect="C10.compensate",
